@@ -50,6 +50,7 @@ type Script struct {
 	RawReset     bool        `json:"raw_reset,omitempty"` // close with RST after Raw
 	Gzip         bool        `json:"gzip,omitempty"`     // body bytes are a gzip stream of the generated body
 	HangFirst    bool        `json:"hang_first,omitempty"` // never send a header block (wait until the peer gives up)
+	Implicit     bool        `json:"implicit,omitempty"`   // do not call WriteHeader: the first Write / the end of the handler commits the status (200)
 }
 
 // Encode renders the script for the ScriptHeader.
@@ -155,6 +156,9 @@ func NewBackend(name string) *Backend {
 // SetExtra installs a handler consulted first (e.g. websocket endpoint); it
 // must return true... implemented as: paths starting with /ws go to extra.
 func (b *Backend) SetExtra(h http.Handler) { b.extra = h }
+
+// Handler returns the scripted handler itself (to place it directly behind a middleware chain).
+func (b *Backend) Handler() http.Handler { return http.HandlerFunc(b.serve) }
 
 // Down closes the listener and all connections: connections are refused until Up.
 func (b *Backend) Down() {
@@ -420,7 +424,9 @@ func (b *Backend) serve(w http.ResponseWriter, r *http.Request) {
 	if status == 0 {
 		status = 200
 	}
-	w.WriteHeader(status)
+	if !sc.Implicit {
+		w.WriteHeader(status)
+	}
 	off := 0
 	for _, st := range sc.Steps {
 		switch st.Op {
